@@ -7,8 +7,10 @@ set -e
 n="$1"; [ -z "$n" ] && { echo "usage: $0 <name>"; exit 2; }
 d="/tmp/vs-$n"
 rm -rf "$d"; mkdir -p "$d"
-rsync -a --exclude work --exclude .git /verif/ "$d/verif/"
-rsync -a /repo/ "$d/repo/"
+rsync -a --exclude work --exclude .git /verif/ "$d/verif/" || [ $? -eq 24 ]
+# (no .git: its worktree bookkeeping changes while other scratch work runs; a file that vanishes
+# during the copy - test output of a suite running in /repo - is not an error)
+rsync -a --exclude .git /repo/ "$d/repo/" || [ $? -eq 24 ]
 sed -i "s#=> /repo#=> $d/repo#" "$d/verif/go.mod"
 echo "export VERIF_ROOT=$d/verif VERIF_REPO=$d/repo GOFLAGS=-mod=mod GOPROXY=off"
 echo "# then: cd $d/verif && ./check Cxx ; apply mutations in $d/repo ; finally rm -rf $d"
